@@ -27,6 +27,16 @@ def mkdoc():
         h.fill(d)
     return h.toJson()
 
+def warmup():
+    """history before the observed call: one valid document of every catalogue unit tree has been parsed in this process
+    (decoders must not carry state from one fromJson call to the next)"""
+    with NT():
+        for mk in ALLMK:
+            h = mk()
+            for d in RECS:
+                h.fill(d)
+            Factory.fromJson(h.toJson())
+
 def setpath(doc, path, value):
     node = doc
     for k in path[:-1]:
@@ -124,6 +134,7 @@ def holes(name, expr, paths, idx, timeout=90):
     kinds = KINDS
     body = f"""
 path = PATHS[p]
+warmup()
 with NT():
     doc = mkdoc()
 atom = hi
@@ -160,6 +171,7 @@ ADDED = ["x", "name", "entries", "data", "type", "sub:type", "0", "w", "zz"]
 
 def keys(name, expr, dicts, delpaths, timeout=90):
     body = f"""
+warmup()
 with NT():
     doc = mkdoc()
 if op == 0:
@@ -219,7 +231,14 @@ if k == 2:
                    bounds=f"valid document of {name} accepted and stable; version := symbolic int; type := symbolic str len<=5")
 
 
+def _allmk():
+    return "ALLMK = [" + ", ".join("(lambda: %s)" % named_expr(t) for t in cat.unit()) + "]\n"
+
+
 def harnesses(tier):
+    global C15_SETUP
+    if "ALLMK = [" not in C15_SETUP:
+        C15_SETUP = C15_SETUP + _allmk()
     out = []
     chunk = 3 if tier == "quick" else 2
     for t in cat.unit():
